@@ -40,7 +40,7 @@ func pickS(r *vh.Rand, opts []string, weights ...int) string { return opts[r.Pic
 
 func newRunner(r *vh.Rand) vh.Runner {
 	rn := &runner{spec: scnSpec{client: "plain", vn: "none", chain: "short"}, seed: r.U64()}
-	client := pickS(r, []string{"plain", "chrome"}, 70, 30)
+	client := pickS(r, []string{"plain", "chrome", "uplain"}, 55, 30, 15)
 	retry := r.Chance(40)
 	vn := pickS(r, []string{"none", "ok", "fail"}, 70, 20, 10)
 	chain := pickS(r, []string{"short", "long"}, 75, 25)
@@ -100,6 +100,23 @@ func newRunner(r *vh.Rand) vh.Runner {
 			ps = append(ps, fmt.Sprintf("src=%d", r.Intn(4)), fmt.Sprintf("bit=%d", r.Intn(10000)))
 		}
 		rn.plan = append(rn.plan, strings.TrimSpace(fmt.Sprintf("inj %d after=%d delay=%d kind=%s seed=%d %s", i+1, after, delay, kind, r.U64()>>1, strings.Join(ps, " "))))
+	}
+	if vn == "ok" && zrtt == "none" && r.Chance(45) {
+		// the dial is re-created by the server's genuine Version Negotiation packet; right after it (before the
+		// server's first packet on the new connection) a forged second Version Negotiation packet addressed to the
+		// NEW connection arrives (listing / not listing the version now in use), and/or a forged Retry
+		k := ni
+		if r.Chance(80) {
+			k++
+			rn.plan = append(rn.plan, fmt.Sprintf("inj %d after=1 delay=%d kind=vn seed=%d list=%s", k, r.Pick(70, 30)*r.Intn(8), r.U64()>>1,
+				pickS(r, []string{"compat", "incompat", "cur"}, 45, 35, 20)))
+		}
+		if r.Chance(35) {
+			k++
+			rn.plan = append(rn.plan, fmt.Sprintf("inj %d after=1 delay=%d kind=retry seed=%d tag=%s scid=new ver=cur", k, r.Intn(6), r.U64()>>1,
+				pickS(r, []string{"valid", "bad"}, 70, 30)))
+		}
+		ni = k
 	}
 	if retry && r.Chance(12) {
 		// an on-path attacker holds back the genuine Retry and forwards its token under a source connection ID
